@@ -143,6 +143,10 @@ pub fn base_sets() -> Vec<(&'static str, Vec<SpacePoint>)> {
     // a 14-point track with a 4 cm gap after 7 points
     v.push(("track with a 4 cm gap (7 + 7 points)", (0..14).map(|i| sp(0.11 + 0.004 * i as f64 + if i >= 7 { 0.04 } else { 0.0 }, 1.9, 0.0)).collect()));
     // 12 points (one short of a cluster) and exactly 13
+    // two 7-point clumps 2.5 cm apart in radius and 2.5 cm apart in z (3.54 cm in space): not connected
+    v.push(("two 7-point clumps 3.54 cm apart on the diagonal", (0..14).map(|i| { let k = i % 7; if i < 7 { sp(0.115 + 0.002 * k as f64, 2.2, 0.10 + 0.001 * k as f64) } else { sp(0.152 + 0.002 * k as f64, 2.2, 0.136 + 0.001 * k as f64) } }).collect()));
+    // sparse ladder: steps of 2.4 cm in the plane and 2.4 cm in z (3.39 cm in space) between 13 points on a spiral
+    v.push(("sparse diagonal ladder of 14 points", (0..14).map(|i| sp(0.11 + 0.005 * i as f64, 0.4 + 0.16 * i as f64, -0.2 + 0.024 * i as f64)).collect()));
     v.push(("12 collinear points", (0..12).map(|i| sp(0.11 + 0.005 * i as f64, 0.3, 0.1)).collect()));
     v.push(("13 collinear points", (0..13).map(|i| sp(0.11 + 0.005 * i as f64, 0.3, 0.1)).collect()));
     v.push(("dense cloud of 150 points", cloud(150, 3).into_iter().map(|p| sp(0.11 + 0.07 * ((bits3(&p)[0] % 1000) as f64 / 1000.0), p.phi.value, 0.1 * p.z.value)).collect()));
@@ -167,7 +171,7 @@ pub fn run(args: &Args) -> i32 {
             }
         }
     }
-    rep.run("remove-one-duplicate-one", plan.len() as u64, 300, true, "10 base multisets (1-3 ideal tracks, noise, back-to-back tracks on one Hough line, same circle at two z, two 8-point stubs, a track with a gap, 12 and 13 collinear points, dense cloud) x {remove point i or none} x {duplicate point j (exact bit copy) or none}", |k, loc| {
+    rep.run("remove-one-duplicate-one", plan.len() as u64, 300, true, "12 base multisets (1-3 ideal tracks, noise, back-to-back tracks on one Hough line, same circle at two z, two 8-point stubs, a track with a gap, 12 and 13 collinear points, dense cloud) x {remove point i or none} x {duplicate point j (exact bit copy) or none}", |k, loc| {
         let (bi, rem, dup) = plan[k as usize];
         let mut pts = bases[bi].1.clone();
         let n = pts.len();
@@ -222,8 +226,8 @@ pub fn run(args: &Args) -> i32 {
         check_vertex_partition(tracks, what, loc);
     });
     // vertexing: template multisets and tracks far apart in z
-    let ms = multisets(6, if thorough { 8 } else { 5 });
-    rep.run("track-multisets", ms.len() as u64, 300, true, "every multiset of size 0..=8 (quick: 5) of 6 template tracks into find_vertices", |idx, loc| {
+    let ms = multisets(7, if thorough { 8 } else { 5 });
+    rep.run("track-multisets", ms.len() as u64, 300, true, "every multiset of size 0..=8 (quick: 5) of 7 template tracks into find_vertices", |idx, loc| {
         let t = template_tracks();
         let set: Vec<Track> = ms[idx as usize].iter().map(|&i| t[i]).collect();
         loc.note(hash64(&(ms[idx as usize].clone(), 1u8)), set.len() >= 2, "vertexed");
